@@ -196,6 +196,8 @@ def run_frame(prog, pred=None):
     reviewed = arith.load_table("recur_reviewed.json")
     obs = []
     n = 0
+    # a reviewed entry whose function no longer exists (renamed / moved) may be taken over once by an unreviewed one of the same module
+    moved = arith.MovedSites(reviewed, set(prog.fns))
     for p, f in sorted(prog.fns.items()):
         if f.kind == "Closure" or not arith.in_scope(f) or arith.generated(f.exp):
             continue
@@ -218,6 +220,8 @@ def run_frame(prog, pred=None):
             obs.append(ok(RULE2, key, st, "%d recursive call(s), each inside a closure handed to in_frame / in_description_frame / ensure_sufficient_stack" % len(rec)))
         elif key in reviewed and reviewed[key].get("class") == "structural":
             obs.append(ok(RULE2, key, st, "reviewed structural recursion: " + reviewed[key]["reason"]))
+        elif key not in reviewed and moved.take(key, lambda e: e.get("class") == "structural") is not None:
+            obs.append(ok(RULE2, key, st, "reviewed structural recursion (function renamed or moved within its module)"))
         else:
             why = reviewed.get(key, {}).get("reason")
             obs.append(bad(RULE2, key, site(f, unguarded[0][1]["line"]),
